@@ -74,7 +74,7 @@ def verdicts(cid, path):
 
 def run(ctx):
     rnd = ctx.rnd
-    ctx.rule = ("generated CIDs (all 8 field types incl. Decimal and DateTime, checks, property rows) stored as CSV, ODS and XLSX and loaded through Cid(path); "
+    ctx.rule = ("generated CIDs (all 8 field types incl. Decimal and DateTime, checks, property rows; text outside ASCII in examples, choices, constants, check descriptions) stored as CSV, ODS and XLSX and loaded through Cid(path); "
                 "generated tables of text cells (accepted and rejected values per field, rows of empty cells only) stored as delimited text, ODS and XLSX and read under CIDs that differ only "
                 "in their Format property; distinct = distinct (CID, table); non-trivial = every case")
     n = 120 if ctx.tier == "quick" else 600
@@ -91,6 +91,16 @@ def run(ctx):
                           ("Choice", "'a;b', 'c;d', 'e;f;g;h;i;j;k;l;m;n;o;p;q;r;s;t;u;v;w;x;y;z;1;2;3;4;5;6;7;8;9'"),
                           ("Pattern", "a\tb\tc\td\te\tf\tg\th\ti\tj\tk\tl\tm\tn\to\tp\tq\tr\ts\tt\tu\tv*")][it % 3]
                 rows = [["D", "Format", "Delimited"], ["F", "code", "", "X", "", filler[0], filler[1]]]
+                info = {"format": "delimited"}
+            elif it < 10:
+                # text outside ASCII in examples, choices, constants and check descriptions: a CID stored as text is UTF-8
+                rows = [[["D", "Format", "Delimited"], ["F", "city", "Zürich", "", "", "Choice", "Zürich, Genève, 'São Paulo', Wien"],
+                         ["F", "name", "Müller", "X", "", "Text", ""], ["C", "Schlüssel muss eindeutig sein", "IsUnique", "city, name"]],
+                        [["D", "Format", "Delimited"], ["D", "Allowed characters", "32...0x2fff"], ["F", "currency", "€", "", "1", "Constant", "'€'"],
+                         ["F", "amount", "1", "", "", "Integer", ""]],
+                        [["D", "Format", "Fixed"], ["F", "note", "日本語", "", "3", "Text", ""], ["F", "code", "ß", "", "1", "Pattern", "[ßäöü]"]],
+                        [["D", "Format", "Excel"], ["", "Kommentar: größer, кириллица, ελληνικά"], ["F", "when", "", "X", "", "DateTime", "DD.MM.YYYY"],
+                         ["C", "höchstens drei", "DistinctCount", "when < 4"]]][it - 6]
                 info = {"format": "delimited"}
             # xlsx / ods cannot keep trailing empty cells apart from missing ones: neither can a CID reader care (cells are padded)
             canon = {}
